@@ -347,6 +347,29 @@ type script struct {
 	direct bool
 	batch  bool
 	src    *idemSrc // how the query / batch is marked; generated from idem and batch when nil
+
+	// statements made by a real Session: the cluster's default retry policy and what the caller did with the
+	// statement's own option (0: left alone = inherits the default, 1: RetryPolicy(explicit), 2: RetryPolicy(nil));
+	// pol is always the effective policy by the documented rule (the option if set, else the default)
+	cluster  *polDesc
+	rtOpt    int
+	explicit polDesc
+	useBind  bool // query made with Session.Bind instead of Session.Query
+	bindSet  bool
+}
+
+// polTerm: the policy as the correspondence case states it
+func (sc *script) polTerm() string {
+	if sc.cluster == nil {
+		return sc.pol.term()
+	}
+	switch sc.rtOpt {
+	case 0:
+		return fmt.Sprintf("(PdOpt %s None)", sc.cluster.term())
+	case 1:
+		return fmt.Sprintf("(PdOpt %s (Some %s))", sc.cluster.term(), sc.explicit.term())
+	}
+	return fmt.Sprintf("(PdOpt %s (Some PdNone))", sc.cluster.term())
 }
 
 // idemSrc: the inputs of IsIdempotent as the application writes them
@@ -479,7 +502,7 @@ func outsTerm(cs []oc) string {
 }
 
 func (sc *script) describe() map[string]interface{} {
-	return map[string]interface{}{"hosts": hostsTerm(sc.hosts), "policy": sc.pol.term(), "idempotent": sc.idem, "marking": srcTerm(sc), "speculative_attempts": sc.spk,
+	return map[string]interface{}{"hosts": hostsTerm(sc.hosts), "policy": sc.polTerm(), "idempotent": sc.idem, "marking": srcTerm(sc), "speculative_attempts": sc.spk,
 		"initial_attempts": sc.a0, "consistency": sc.cons0, "outcomes": outsTerm(sc.outs), "default_outcome": ocTerm(sc.dflt), "direct": sc.direct, "batch": sc.batch}
 }
 
@@ -748,9 +771,10 @@ func (rc *runCtx) execute(ctx context.Context, host int, cons gocql.Consistency)
 	return c.o.err, c.still
 }
 
-func (rc *runCtx) retryPolicy() gocql.RetryPolicy {
+func (rc *runCtx) retryPolicy() gocql.RetryPolicy { return rc.retryPolicyFor(rc.sc.pol) }
+
+func (rc *runCtx) retryPolicyFor(p polDesc) gocql.RetryPolicy {
 	var inner gocql.RetryPolicy
-	p := rc.sc.pol
 	switch p.kind {
 	case 0:
 		return nil
@@ -1237,7 +1261,7 @@ func (h *harness) evalSeq(sc *script, rc *runCtx, res gocql.VerifC13Result, pan 
 	}
 	view := rc.classify(res)
 	nontrivial := countExec(tr) >= 2 || (countExec(tr) == 1 && len(tr) > 4)
-	term := fmt.Sprintf("CSeq %s %s %s %s %s %s %s %s %s %s %s %s %s", hlib.Bool(sc.direct), hostsTerm(sc.hosts), sc.pol.term(), sc.src.term(),
+	term := fmt.Sprintf("CSeq %s %s %s %s %s %s %s %s %s %s %s %s %s", hlib.Bool(sc.direct), hostsTerm(sc.hosts), sc.polTerm(), sc.src.term(),
 		hlib.Z(int64(sc.spk)), hlib.Z(int64(sc.a0)), hlib.Z(sc.cons0), outsTerm(sc.outs), ocTerm(sc.dflt), traceTerm(tr), view.resultTerm(),
 		hlib.Z(int64(res.Attempts)), hlib.Z(int64(res.Consistency)))
 	idx := o.Case(kind, nontrivial, term)
@@ -1617,7 +1641,7 @@ func (h *harness) runControlledWith(sc *script, sched []int, ticks bool, cancelA
 		total += countExec(tr)
 	}
 	att := res.AttemptsNow()
-	term := fmt.Sprintf("CSpec %s %s %s %s %s %s %s %s %s %s %s", hostsTerm(sc.hosts), sc.pol.term(), sc.src.term(), hlib.Z(int64(sc.spk)), hlib.Z(int64(sc.a0)), hlib.Z(sc.cons0),
+	term := fmt.Sprintf("CSpec %s %s %s %s %s %s %s %s %s %s %s", hostsTerm(sc.hosts), sc.polTerm(), sc.src.term(), hlib.Z(int64(sc.spk)), hlib.Z(int64(sc.a0)), hlib.Z(sc.cons0),
 		scheduleTerm(ls1), ret, scheduleTerm(ls2), hlib.List(runs), hlib.Z(int64(att)))
 	idx := o.Case(kind, total >= 2, term)
 	// monitors
@@ -1877,6 +1901,7 @@ func main() {
 			for i := 0; i < n/2; i++ {
 				e.run(g.e2eScript(), "seq-end-to-end")
 			}
+			e.runRetryOptions()
 			// the context ends while a PREPARE is outstanding (statement new to the host), retries still allowed
 			np := 16
 			if o.Scale > 1 {
